@@ -1,6 +1,6 @@
 (** C03 - CDDA tracks tile the bin file exactly at the cue sheet's index positions.
     Property theorems only. *)
-From SE Require Import Base Codecs Cue FatProofs StreamProofs CueProofs.
+From SE Require Import Base Codecs Cue FatProofs Stream StreamProofs CueProofs Transcode TranscodeProofs TranscodeUnbounded AkaiProofs.
 
 Theorem msf_frames : forall m s f,
   frames_of_index {| ix_num := 1; ix_min := m; ix_sec := s; ix_frm := f |} = (60 * m + s) * 75 + f.
@@ -43,3 +43,31 @@ Example c03_example :
   windows_spec [1; 3; 4] 11763 = [(2352, 4704); (7056, 2352); (9408, 2355)]
   /\ increasing [1; 3; 4] /\ 2352 * last [1; 3; 4] 0 <= 11763.
 Proof. split; [vm_compute; reflexivity|]. split; [cbn [increasing]; lia|cbn [last]; lia]. Qed.
+
+(** [track_pcm] is not an abstraction of convenience: it IS what the real pipeline computes.
+    The track's stream is StreamOffset(bin, size, offset) - a well-formed C08 view whose logical
+    content is the bin slice - and the pass-through transcoder writes a single little-endian
+    16-bit stereo stream truncated to whole 4-byte frames, for every internal block size (C12). *)
+Theorem cdda_track_stream_content :
+  forall bin off size, 0 <= off -> 0 < size -> off + size <= zlen bin ->
+    wf (V (KOff off) size Base) bin /\
+    logical (V (KOff off) size Base) bin = slice bin off (off + size).
+Proof.
+  intros bin off size H1 H2 H3. split.
+  - cbn [wf kind_ok logical]. repeat split; lia.
+  - apply logical_off; cbn [logical]; lia.
+Qed.
+Print Assumptions cdda_track_stream_content.
+Theorem cdda_track_written_pcm :
+  forall target bin w, 0 < w_size w ->
+    transcode target [{| sbytes := slice bin (w_off w) (w_off w + w_size w); swidth := 2; schans := 2; sbig := false |}] 2 2
+    = Ok (track_pcm bin w).
+Proof.
+  intros target bin w Hs.
+  pose proof (transcode_single_le_lemma target 2
+                {| sbytes := slice bin (w_off w) (w_off w + w_size w); swidth := 2; schans := 2; sbig := false |}
+                ltac:(lia) eq_refl ltac:(cbn; lia) eq_refl) as H.
+  cbn [schans] in H. rewrite H. unfold track_pcm, whole_frames, frame_size. cbn [sbytes schans swidth].
+  destruct (Z.gtb_spec (w_size w) 0) as [_|Hc]; [|lia]. do 3 f_equal.
+Qed.
+Print Assumptions cdda_track_written_pcm.
